@@ -187,4 +187,24 @@ Proof. unfold S3, g3. cbn. ring. Qed.
 (* the integral seen by the code: T k i j := S3 0 k i j *)
 Definition T3 (k i j : nat) : F := S3 0 k i j.
 
+(* moment order 0 does not see the moment centre *)
+Lemma S3_0_indep_c n i j : S3 n 0 i j = Eaux n (plin_pow a i (plin_pow b j [1])).
+Proof. reflexivity. Qed.
+
 End Moment1D.
+
+(* exchanging the roles of the two functions (a <-> b, i <-> j) leaves every moment unchanged *)
+Section Swap.
+Context {F : Type} (K : Fops F) (Kf : is_field K).
+Add Field KFs : Kf.
+Variables v a b c : F.
+Lemma S3_swap n k i j : S3 K v a b c n k i j = S3 K v b a c n k j i.
+Proof.
+  revert n j. induction i as [|i IHi]; intros n j.
+  - revert n. induction j as [|j IHj]; intros n; [reflexivity|].
+    rewrite (S3_Sj K Kf), (S3_Si K Kf), (IHj n), (IHj (S n)). reflexivity.
+  - rewrite (S3_Si K Kf), (S3_Sj K Kf), (IHi n j), (IHi (S n) j). reflexivity.
+Qed.
+Lemma T3_swap k i j : T3 K v a b c k i j = T3 K v b a c k j i.
+Proof. apply S3_swap. Qed.
+End Swap.
